@@ -409,7 +409,7 @@ def shard(args):
 
 
 def run(ctx):
-    n = 60 if ctx.tier == 'quick' else 4000
+    n = 60 if ctx.tier == 'quick' else 20000
     shards = [{'shard': i, 'n': n, 'nassign': 30 if ctx.tier == 'quick' else
                100} for i in range(common.NCPU)]
     results = common.run_shards('checks.c17', shards, timeout=3400)
